@@ -62,6 +62,7 @@ type Op struct {
 	Flag    int
 	Perm    os.FileMode
 	Len     int   // bytes requested (read/write)
+	Size    int64 // File.Truncate: the size asked for
 	Handle  int64 // handle id for File.* ops and for the open call that created it
 	Mtime   time.Time
 	Mutates bool
